@@ -158,10 +158,32 @@ def sqrtFld (r : Except String (Fld C)) : Res :=
   | .error e => .err e
   | .ok f => .fld f true
 
+/-- calls whose `spaces` tuple parse_spaces lets through although it has negative / too large entries -/
+def runDirty (flds : Array (Fld C)) (j : Json) (op : String) (f : Fld C) (li : List Int) : Option Res :=
+  match op with
+  | "weight" => do some (ofExF (dirtyWeight f (← fInt? j "power") li))
+  | "sum" => some (ofExF (dirtySum f li))
+  | "prod" => some (ofExF (dirtyContract f li (max f.dt DT.int) (sProd f)))
+  | "all" => some (ofExF (dirtyContract f li DT.bool (b2c (sAll f))))
+  | "any" => some (ofExF (dirtyContract f li DT.bool (b2c (sAny f))))
+  | "integrate" => some (ofExF (dirtyIntegrate f li))
+  | "mean" => some (ofExF (dirtyMean f li))
+  | "var" => some (ofExF (dirtyVar CRat.nsq f li))
+  | "std" => some (sqrtFld (dirtyVar CRat.nsq f li))
+  | "vdot" => do
+    let g ← flds[(← fNat? j "g")]?
+    some (ofExF ((dirtyVdot CRat.conj f g li).map fun r =>
+      if li.length == f.subs.length then { r with dt := duccDt (r.val []) } else r))
+  | _ => none
+
 def runFieldOp (flds : Array (Fld C)) (j : Json) : Option Res := do
   let op ← fStr? j "op"
   let fi ← fNat? j "f"
   let f ← flds[fi]?
+  let dirty : Option (List Int) :=
+    if ["weight", "sum", "prod", "all", "any", "integrate", "mean", "var", "std", "vdot"].contains op
+    then (parseSpacesJ j "spaces").bind (fun sp => dirtySpaces sp f.subs.length) else none
+  if let some li := dirty then runDirty flds j op f li else
   match op with
   | "weight" => do
     let p ← fInt? j "power"
@@ -285,6 +307,9 @@ def runMFieldOp (mfs : Array (MFld C)) (j : Json) : Option Res := do
   | _ => none
 
 def handle (j : Json) : Json :=
+  match (field? j "setorder").bind intList? with
+  | some l => jObj [("order", jInts (pySetOrder l))]
+  | none =>
   let r : Option Json := do
     let fj ← (field? j "fields").bind getArr?
     let flds ← fj.mapM parseFld
